@@ -983,7 +983,7 @@ func (bs *balanceSolver) buildOperator() (op *operator.Operator, infl *Influence
 		srcPeer := bs.cur.region.GetStorePeer(bs.cur.srcStoreID) // checked in getRegionAndSrcPeer
 		dstPeer := &metapb.Peer{StoreId: bs.cur.dstStoreID, Role: srcPeer.Role}
 		typ := "move-peer"
-		if bs.rwTy == read && bs.cur.region.GetLeader().StoreId == bs.cur.srcStoreID { // move read leader
+		if bs.rwTy == read && bs.cur.region.GetLeader().GetStoreId() == bs.cur.srcStoreID { // move read leader
 			op, err = operator.CreateMoveLeaderOperator(
 				"move-hot-read-leader",
 				bs.cluster,
